@@ -14,6 +14,7 @@ import (
 	"path/filepath"
 	"strings"
 
+	builder "github.com/acekingke/yaccgo/Builder"
 	parser "github.com/acekingke/yaccgo/Parser"
 	symbol "github.com/acekingke/yaccgo/Symbol"
 )
@@ -31,6 +32,9 @@ type fileRule struct {
 	Rhs    []string `json:"rhs"`
 	Prec   string   `json:"prec"`
 	Action string   `json:"action"`
+	// the symbol whose precedence the rule has: the explicit %prec symbol, else the rule's last terminal if that has a
+	// precedence; "?" where yacc's and yaccgo's reading of "the rule's precedence" differ (not compared)
+	EffPrec string `json:"effprec"`
 }
 
 // fileView is the abstract content of a grammar file -- what C10 says must be
@@ -70,9 +74,14 @@ type fileSpec struct {
 	NoSecondSection bool
 }
 
-var actionBodies = []string{
-	"", "", "$$ = $1", "x := 1; _ = x", "if a { b() } else { c() }", "/* note */ f($1, $2)", "s := \"text\"; _ = s",
-	"for i := 0; i < 3; i++ { g(i) }", "$$ = $1 + $3", "// line comment\n\tdone()",
+// action bodies with the number of right-hand-side symbols they need ($n must not exceed the rule's length)
+var actionBodies = []struct {
+	text string
+	need int
+}{
+	{"", 0}, {"", 0}, {"$$ = $1", 1}, {"x := 1; _ = x", 0}, {"y := 7 % 3; _ = y /* 100% */", 0}, {"if a { b() } else { c() }", 0},
+	{"/* note */ f($1, $2)", 2}, {"s := \"text\"; _ = s", 0}, {"for i := 0; i < 3; i++ { g(i) }", 0}, {"$$ = $1 + $3", 3},
+	{"// line comment\n\tdone()", 0}, {"$$ = 100 % 7", 0},
 }
 
 func genFileSpec(r *rand.Rand, id string) *fileSpec {
@@ -168,9 +177,9 @@ func genFileSpec(r *rand.Rand, id string) *fileSpec {
 			fs.PreDecl = append(fs.PreDecl, t.Name)
 		}
 	}
-	fs.Prologue = []string{"package main", "package main\n\nimport \"fmt\"\n\nvar _ = fmt.Sprint", "package p // 100% Go { not a brace problem }\nconst K = 1"}[r.Intn(3)]
+	fs.Prologue = []string{"package main", "package main\n\nimport \"fmt\"\n\nvar _ = fmt.Sprint", "package p // 100% Go { not a brace problem }\nconst K = 17 % 5"}[r.Intn(3)]
 	if len(c.Types) > 0 || r.Intn(2) == 0 {
-		fs.Union = []string{"ia int\n\tst string\n\tnode *Node", "ia int; st string; node struct{ a, b int }"}[r.Intn(2)]
+		fs.Union = []string{"ia int\n\tst string\n\tnode *Node", "ia int; st string; node struct{ a, b int } // 3 fields, 100%"}[r.Intn(2)]
 	}
 	hasTag := len(c.Types) > 0
 	for _, t := range c.Tokens {
@@ -181,10 +190,30 @@ func genFileSpec(r *rand.Rand, id string) *fileSpec {
 	if hasTag && fs.Union == "" {
 		fs.Union = "ia int\n\tst string\n\tnode *Node"
 	}
-	fs.Epilogue = []string{"\nfunc GetToken() {}\n", "\n// epilogue %% with markers { } '\n\nfunc main() {\n\tprintln(\"hi\")\n}\n", "\n"}[r.Intn(3)]
+	fs.Epilogue = []string{"\nfunc GetToken() {}\n", "\n// epilogue %% with markers { } ' and 50% more %d %s\n\nfunc main() {\n\tprintln(\"hi\", 9%4)\n}\n", "\n"}[r.Intn(3)]
+	// a %prec alternative that is followed by further alternatives of the same nonterminal (the annotation
+	// belongs to that one alternative only)
+	var precToks []string
+	for _, pl := range c.Prec {
+		precToks = append(precToks, pl.Syms...)
+	}
+	forceJoin := map[int]bool{}
+	if len(precToks) > 0 {
+		for i := 0; i+1 < len(c.Rules); i++ {
+			if c.Rules[i].Lhs == c.Rules[i+1].Lhs && r.Intn(3) == 0 {
+				c.Rules[i].Prec = precToks[r.Intn(len(precToks))]
+				c.Rules[i+1].Prec = ""
+				forceJoin[i+1] = true
+			}
+		}
+	}
 	for i := range c.Rules {
-		fs.Actions = append(fs.Actions, actionBodies[r.Intn(len(actionBodies))])
-		join := i > 0 && c.Rules[i-1].Lhs == c.Rules[i].Lhs && r.Intn(3) != 0
+		ab := actionBodies[r.Intn(len(actionBodies))]
+		if ab.need > len(c.Rules[i].Rhs) {
+			ab = actionBodies[3]
+		}
+		fs.Actions = append(fs.Actions, ab.text)
+		join := i > 0 && c.Rules[i-1].Lhs == c.Rules[i].Lhs && (r.Intn(3) != 0 || forceJoin[i])
 		fs.AltJoin = append(fs.AltJoin, join)
 		fs.Semi = append(fs.Semi, r.Intn(3) != 0)
 	}
@@ -312,7 +341,11 @@ func (fs *fileSpec) want() fileView {
 		if rhs == nil {
 			rhs = []string{}
 		}
-		v.Rules = append(v.Rules, fileRule{Lhs: ru.Lhs, Rhs: rhs, Prec: ru.Prec, Action: strings.TrimSpace(fs.Actions[i])})
+		eff, agreed := c.effPrec(ru)
+		if !agreed {
+			eff = "?"
+		}
+		v.Rules = append(v.Rules, fileRule{Lhs: ru.Lhs, Rhs: rhs, Prec: ru.Prec, Action: strings.TrimSpace(fs.Actions[i]), EffPrec: eff})
 	}
 	tp := map[string]tokPrec{}
 	for _, p := range c.TokPrec() {
@@ -411,6 +444,62 @@ type fileObs struct {
 	Diag       string   `json:"diag"`
 	Got        fileView `json:"got"`
 	RulePrecOK bool     `json:"ruleprec_ok"` // explicit %prec symbols arrived at the right rules
+	// for the first layout of every specification the Go and TypeScript generators are run on the text and the
+	// output file is searched for the user's text (empty list = not generated for this observation)
+	Gen []genCheck `json:"gen"`
+}
+
+type genCheck struct {
+	Lang     string `json:"lang"`
+	OK       bool   `json:"ok"`       // generation succeeded
+	Prologue bool   `json:"prologue"` // output contains the prologue text
+	Union    bool   `json:"union"`    // output contains the %union body
+	Epilogue bool   `json:"epilogue"` // output ends with the epilogue
+	Actions  bool   `json:"actions"`  // every action body without $-references appears verbatim
+	Note     string `json:"note"`
+}
+
+func (fs *fileSpec) genChecks(text, dir string) []genCheck {
+	var res []genCheck
+	for _, lang := range []string{"go", "ts"} {
+		gc := genCheck{Lang: lang}
+		out := filepath.Join(dir, "fileobs-gen."+lang)
+		os.Remove(out)
+		resetFlags()
+		var gerr error
+		_, perr, _ := capture(func() {
+			if lang == "go" {
+				gerr = builder.TemplateGenFromString(text, out)
+			} else {
+				gerr = builder.TsGenFromString(text, out)
+			}
+		})
+		b, rerr := os.ReadFile(out)
+		os.Remove(out)
+		if perr != nil || gerr != nil || rerr != nil {
+			gc.Note = fmt.Sprintf("generation failed: %v %v %v", perr, gerr, rerr)
+			res = append(res, gc)
+			continue
+		}
+		gc.OK = true
+		o := string(b)
+		gc.Prologue = strings.Contains(o, strings.TrimSpace(fs.Prologue))
+		gc.Union = fs.Union == "" || strings.Contains(o, strings.TrimSpace(fs.Union))
+		epi := fs.Epilogue
+		if fs.NoSecondSection {
+			epi = ""
+		}
+		gc.Epilogue = strings.HasSuffix(o, epi)
+		gc.Actions = true
+		for _, a := range fs.Actions {
+			if a != "" && !strings.Contains(a, "$") && !strings.Contains(o, a) {
+				gc.Actions = false
+				gc.Note = "missing action text: " + a
+			}
+		}
+		res = append(res, gc)
+	}
+	return res
 }
 
 type specInfo struct {
@@ -464,15 +553,28 @@ func cmdFileObs(args []string) {
 				explicit[t.Sym()] = true
 			}
 		}
-		for _, lay := range layouts[si] {
+		for li, lay := range layouts[si] {
 			text := s.render(lay)
 			resetFlags()
 			w, outcome, diag, _ := buildInProcess(text)
-			o := fileObs{Spec: si + 1, Layout: lay, Outcome: outcome, Diag: diag, RulePrecOK: true}
+			o := fileObs{Spec: si + 1, Layout: lay, Outcome: outcome, Diag: diag, RulePrecOK: true, Gen: []genCheck{}}
+			if li == 0 && outcome == "ok" {
+				o.Gen = s.genChecks(text, *out)
+			}
 			if outcome == "ok" {
 				o.Got = gotView(w, explicit)
 				// explicit %prec: observable through the rule's precedence symbol
 				root := w.VistorNode.(*parser.RootVistor)
+				wantView := s.want()
+				for i := range s.Case.Rules {
+					if i+1 < len(root.LALR1.G.ProductoinRules) && i < len(o.Got.Rules) && i < len(wantView.Rules) {
+						if wantView.Rules[i].EffPrec == "?" {
+							o.Got.Rules[i].EffPrec = "?"
+						} else if ps := root.LALR1.G.ProductoinRules[i+1].PrecSymbol; ps != nil {
+							o.Got.Rules[i].EffPrec = projName(int(ps.ID), ps.Name)
+						}
+					}
+				}
 				for i, ru := range s.Case.Rules {
 					if i+1 < len(root.LALR1.G.ProductoinRules) && ru.Prec != "" {
 						ps := root.LALR1.G.ProductoinRules[i+1].PrecSymbol
